@@ -12,6 +12,8 @@ if len(sys.argv) > 3 and sys.argv[3] == "round4":
     LARGE = "Additional requirement for this round: each of your changes must only manifest in an unusual ENVIRONMENT or HISTORY (not merely on a large input): for example particular environment variables (HOME, TMPDIR, LANG/LC_ALL, PYTHONHASHSEED, COND_* variables inherited from an outer cond invocation), a project reached through a symbolic link or a path containing spaces/unicode, read-only or pre-existing files and directories, unusual but legal cond_config.toml contents, a wall clock that steps backwards or stands still, leftovers of a previous command that was interrupted or killed, two cond processes working on the same project at the same time, or an interplay between two different subcommands (run / where / gc / archive / restore / clean). Say in notes.md exactly what is needed.\n\n"
 if len(sys.argv) > 3 and sys.argv[3] == "round5":
     LARGE = "Additional requirement for this round: each of your changes must consist of TWO cooperating edits at different code sites (different functions, preferably different files) such that either edit alone leaves the behaviour unchanged and only the combination breaks the property - and the break must additionally depend on a particular MIX of circumstances (for instance a group or combine task in the middle of the graph together with a cached experiment and --jobs > 1; --stop-early together with a launch failure; a dependency listed both directly and transitively; tasks in different packages with equal names). Say in notes.md exactly which mix is needed.\n\n"
+if len(sys.argv) > 3 and sys.argv[3] == "round6":
+    LARGE = "Additional requirement for this round: each of your changes must only manifest when a FAULT happens at one particular point, or in a particular ORDER OF EVENTS: for example a helper subprocess (git, tar) failing or printing something unusual, an OSError (ENOSPC, EACCES, EEXIST, ENOENT) from one particular filesystem call, an sqlite error, `cond` being killed (SIGKILL) between two specific steps and a later command then working on what it left behind, a signal (SIGINT/SIGTERM/SIGCHLD) arriving at one specific moment, tasks finishing in one particular completion order, or a task that modifies files while it runs. Without that fault or order the changed code must behave exactly like the original. Say in notes.md exactly which fault or order is needed. You have about 12 minutes: prefer small, sharp changes.\n\n"
 if prior:
     ALREADY = "\n\nOther people have ALREADY produced seeded defects for this property based on the following ideas - yours must use clearly DIFFERENT mechanisms and different code sites where possible:\n" + "\n".join("  - " + d for _, d in prior) + "\n"
 rec = [json.loads(l) for l in open("/verif/properties.jsonl") if json.loads(l)["id"] == pid][0]
